@@ -530,12 +530,16 @@ def gen_chain(r):
         k = r.below(100)
         watch = [r.choice(WATCH_KEYS) for _ in range(r.range(1, 2))] if (k < 55 or (last and r.chance(1, 3))) else []
         touch = "none"
-        if watch and not last and k < 42:
-            touch = r.choice(["before-multi", "after-queue"])
-        end = "exec" if (last or k < 80) else "discard"
+        unwatch = bool(watch) and r.chance(1, 5)          # WATCH ..; UNWATCH: later changes of the keys must not abort
+        if watch and r.chance(3, 4) and (not last or unwatch):
+            touch = r.choice(["before-multi", "after-queue"]) if not unwatch else "before-multi"
+        end = "exec" if (last or r.chance(7, 10)) else "discard"
         q, _ = g.queue(r.range(0 if not last else 1, 5))
-        rounds.append({"watch": [hx(x) for x in watch], "touch": touch, "pre": r.choice(["none", "none", "none", "exec", "discard"]),
-                       "nested": r.below(7) if r.chance(1, 5) else 0, "queue": [[hx(x) for x in c] for c in q], "end": end})
+        rounds.append({"watch": [hx(x) for x in watch], "unwatch": unwatch, "touch": touch, "pre": r.choice(["none", "none", "none", "exec", "discard"]),
+                       "nested": r.below(7) if r.chance(1, 5) else 0, "queue": [[hx(x) for x in c] for c in q], "end": end,
+                       # once the transaction has ended (in whatever way) its WATCHes are gone: another connection then changes every
+                       # key it had watched, and the NEXT transaction on this connection must run
+                       "stale_touch": bool(watch) and not last and r.chance(3, 4)})
     return {"kind": "chain", "setup": [[hx(x) for x in c] for c in g.setup()], "rounds": rounds}
 
 
@@ -543,7 +547,8 @@ def chain_text(case):
     def t(c):
         return " ".join(unhx(x).decode("latin-1") for x in c)
     return {"setup": [t(c) for c in case["setup"]],
-            "rounds": [{"watch": [unhx(x).decode("latin-1") for x in rd["watch"]], "another_connection_changes_watched_key": rd["touch"], "first": rd["pre"],
+            "rounds": [{"watch": [unhx(x).decode("latin-1") for x in rd["watch"]], "then_unwatch": rd.get("unwatch", False),
+                        "another_connection_changes_watched_key": rd["touch"], "and_again_after_the_transaction_ended": rd.get("stale_touch", False), "first": rd["pre"],
                         "nested_multi_at": rd["nested"], "queue": [t(c) for c in rd["queue"]], "end": rd["end"]} for rd in case["rounds"]]}
 
 
@@ -579,14 +584,14 @@ def run_chain_case(tw, case, rep=None):
         all_cmds += queue
         touched = False
 
-        def touch():
-            # the key is watched in the database the connection has selected (an earlier transaction may have SELECTed)
-            db = str(m.conn(cid)[0]).encode()
-            cs = [[b"SET", watch[0], b"changed%d" % ri]]
-            if db != b"0":
-                cs = [[b"SELECT", db]] + cs + [[b"SELECT", b"0"]]
+        wdb = str(m.conn(cid)[0]).encode()      # keys are watched in the database selected at WATCH time
+
+        def touch(keys, what):
+            cs = [[b"SET", k, b"changed%d" % ri] for k in keys]
+            if wdb != b"0":
+                cs = [[b"SELECT", wdb]] + cs + [[b"SELECT", b"0"]]
             for c in cs:
-                step(tw.b, c, "another-connection-changes-watched-key", conn=9001)
+                step(tw.b, c, what, conn=9001)
                 tw.impl(tw.tobs, c)
         if rd["pre"] in ("exec", "discard"):
             r0 = step(tw.a, [rd["pre"].upper().encode()], rd["pre"] + "-without-multi")
@@ -594,9 +599,12 @@ def run_chain_case(tw, case, rep=None):
         if watch:
             r0 = step(tw.a, [b"WATCH"] + watch, "watch")
             oracle(r0 == OK, "WATCH must answer OK", got=r0, round=ri)
+            if rd.get("unwatch"):
+                r0 = step(tw.a, [b"UNWATCH"], "unwatch")
+                oracle(r0 == OK, "UNWATCH must answer OK", got=r0, round=ri)
         if watch and rd["touch"] == "before-multi":
-            touch()
-            touched = True
+            touch(watch[:1], "another-connection-changes-watched-key")
+            touched = not rd.get("unwatch")
         r0 = step(tw.a, [b"MULTI"], "multi")
         oracle(r0 == OK, "MULTI must answer OK", got=r0, round=ri)
         nested_at = rd["nested"] % (len(queue) + 1) if (rd["nested"] and queue) else None
@@ -607,14 +615,16 @@ def run_chain_case(tw, case, rep=None):
             r0 = step(tw.a, c, "queue")
             oracle(r0 == QUEUED, "a command between MULTI and EXEC must be answered QUEUED", got=r0, round=ri)
         if watch and rd["touch"] == "after-queue":
-            touch()
-            touched = True
+            touch(watch[:1], "another-connection-changes-watched-key")
+            touched = not rd.get("unwatch")
         if rd["end"] == "exec":
             got = step(tw.a, [b"EXEC"], "exec", names=names, watch_ok=not touched)
             if touched:
                 oracle(got == "( na )", "EXEC after a WATCHed key was changed by another connection must answer a null array", got=got, round=ri)
                 outcome = "aborted-by-watch"
             else:
+                oracle(got != "( na )", "EXEC answered a null array although no key WATCHed for THIS transaction was changed (the watches of an earlier "
+                       "transaction end with its EXEC / DISCARD, those dropped by UNWATCH with it)", got=got, round=ri)
                 direct = [tw.direct_equiv(tw.t, c) for c in queue]
                 want = "( a%s )" % "".join(" " + x for x in direct)
                 oracle(got == want, "EXEC of transaction %d on this connection must return exactly the replies of ITS %d queued commands (as sent directly to the twin)"
@@ -624,7 +634,13 @@ def run_chain_case(tw, case, rep=None):
             r0 = step(tw.a, [b"DISCARD"], "discard")
             oracle(r0 == OK, "DISCARD must answer OK", got=r0, round=ri)
             outcome = "discarded"
+        if watch and rd.get("stale_touch"):
+            touch(watch, "another-connection-changes-formerly-watched-keys")
+            if rep:
+                rep.count("chain.formerly-watched-keys-changed-after.%s" % outcome)
         if rep:
+            if rd.get("unwatch"):
+                rep.count("chain.watch-unwatch%s" % (".then-changed" if rd["touch"] != "none" else ""))
             rep.count("chain.round%d.%s" % (min(ri, 3), outcome))
             rep.nontrivial(("chain", min(ri, 3), outcome, rd["pre"], bool(nested_at is not None), len(queue) > 0))
     after = step(tw.a, [b"EXEC"], "exec-again")
@@ -668,6 +684,174 @@ def shrink_chain(case, findings):
             small["setup"] = shrink_list(small["setup"], lambda su: fails(dict(small, setup=su)), max_steps=15)
         small["text"] = chain_text(small)
         small["shrunk_from"] = {"rounds": len(case["rounds"])}
+        return small
+    except (InternalError, OSError):
+        return case
+    finally:
+        tw.close()
+
+
+# ---------------------------------------------------------------- (i-d) a transaction that straddles a blocking pop and two writes
+def gen_straddle(r, allow_timeout):
+    """one connection sends, in a first write, a BLPOP/BRPOP that really blocks followed by the first part of
+    `MULTI q.. EXEC tail..`, and in a second write - while it is blocked - the rest; it is then unblocked by another
+    connection's push or by its time-out.  Frames of a blocked client wait, and run in the order sent."""
+    g = QueueGen(r)
+    q, _ = g.queue(r.range(1, 5), specials=False)
+    tail = [g.g.command() for _ in range(r.range(0, 2))]
+    frames = [[b"MULTI"]] + q + [[b"EXEC"]] + tail
+    unblock = "timeout" if (allow_timeout and r.chance(1, 2)) else "push"
+    keys = [b"bq"] + ([b"bq2"] if r.chance(1, 3) else [])
+    pop = [r.choice([b"BLPOP", b"BRPOP"])] + keys + [b"1" if unblock == "timeout" else b"0"]
+    return {"kind": "straddle", "setup": [[hx(x) for x in c] for c in g.setup()], "pop": [hx(x) for x in pop], "push_key": hx(r.choice(keys)),
+            "frames": [[hx(x) for x in c] for c in frames], "split": r.range(0, len(frames)), "unblock": unblock}
+
+
+def straddle_text(case):
+    def t(c):
+        return " ".join(unhx(x).decode("latin-1") for x in c)
+    fr = [t(c) for c in case["frames"]]
+    return {"setup": [t(c) for c in case["setup"]], "first_write": [t(case["pop"])] + fr[:case["split"]], "second_write_while_blocked": fr[case["split"]:],
+            "unblocked_by": "another connection: RPUSH %s j1" % unhx(case["push_key"]).decode("latin-1") if case["unblock"] == "push" else "its time-out (1 s)"}
+
+
+def run_straddle_case(tw, case, rep=None):
+    tw.fresh()
+    m, cid = tw.model, tw.cid
+    res = {"steps": [], "oracle": [], "disagree": [], "tags": set()}
+    pop = [unhx(x) for x in case["pop"]]
+    frames = [[unhx(x) for x in c] for c in case["frames"]]
+    split = min(case["split"], len(frames))
+    push_key = unhx(case["push_key"])
+
+    def oracle(ok, why, **kw):
+        if not ok:
+            res["oracle"].append(dict(kw, why=why))
+
+    for c in case["setup"]:
+        c = [unhx(x) for x in c]
+        tw.impl(tw.a, c)
+        m.frame(cid, c)
+        tw.impl(tw.t, c)
+    # ---- first write: the pop (blocks) and what is pipelined behind it
+    code, spec, same = m.frame(cid, pop)
+    if spec != "( noresponse )":
+        raise InternalError("harness: the pop of a straddle case does not block in the model: %s" % spec)
+    try:
+        tw.a.send_raw(b"".join(Client.encode(f) for f in [pop] + frames[:split]))
+    except OSError:
+        res["oracle"].append({"why": "connection failed on the first write"})
+        return res
+    for _ in range(3000):
+        reg = tw.b.cmd("VERIF", "BLOCKED")
+        if reg[0] == "a" and any(reg[1][j] == ("b", pop[1]) and reg[1][j + 1][0] == "a" and reg[1][j + 1][1] for j in range(0, len(reg[1]) - 1, 2)):
+            break
+    # ---- second write, while the client is blocked
+    try:
+        if frames[split:]:
+            tw.a.send_raw(b"".join(Client.encode(f) for f in frames[split:]))
+    except OSError:
+        res["oracle"].append({"why": "connection failed on the second write"})
+        return res
+    tw.turn(tw.b)
+    oracle(tw.a.nothing_pending(0.01), "a client blocked in a blocking pop was sent a reply before it was unblocked")
+    # ---- unblock
+    if case["unblock"] == "push":
+        pc = [b"RPUSH", push_key, b"j1"]
+        impl = tw.impl(tw.b, pc)
+        code, spec, same = m.frame(9001, pc)
+        if failed_oracle(impl, code, spec, same):
+            res["oracle"].append({"why": "the unblocking push was not answered as prescribed", "impl": impl, "spec": spec})
+        want_pop = m.last_deliveries[1][0][1] if m.last_deliveries[1] else "?"
+        tw.impl(tw.tobs, pc)
+        twin_pop = tw.impl(tw.t, pop)            # on the twin the element is already there: the same command does not block
+    else:
+        want_pop = "( na )"
+        m.disc(cid)                                # (time-outs are outside the model: the waiter goes, the connection is as before)
+        twin_pop = tw.direct_equiv(tw.t, pop)
+    # ---- replies, in the order sent
+    qnames = []
+    seen_multi = False
+    for f in frames:
+        if name_of(f) == "MULTI":
+            seen_multi = True
+        elif name_of(f) == "EXEC":
+            break
+        elif seen_multi:
+            qnames.append(name_of(f))
+    got = []
+    try:
+        got.append(canon_reply("", tw.a.read_reply(3.0)))
+        for f in frames:
+            rr = tw.a.read_reply(2.0)
+            got.append(canon_exec(qnames, rr) if name_of(f) == "EXEC" else canon_reply(name_of(f), rr))
+    except (Closed, TimeoutError, ProtocolError, OSError) as e:
+        got.append("nothing:" + type(e).__name__)
+    twin = [twin_pop] + [tw.impl(tw.t, f, qnames if name_of(f) == "EXEC" else None) for f in frames]
+    model = [(want_pop, want_pop, True)] + [m.frame(cid, f) for f in frames]
+    for i, f in enumerate([pop] + frames):
+        have = got[i] if i < len(got) else "nothing"
+        code, spec, same = model[i]
+        st = {"text": " ".join(repr(x.decode("latin-1")) for x in f), "what": "first-write" if i <= split else "second-write", "impl": have, "twin": twin[i],
+              "code": code, "spec": spec, "same": same}
+        res["steps"].append(st)
+        if have != code:
+            res["disagree"].append(st)
+        if have != twin[i]:
+            res["oracle"].append(dict(st, why="reply %d of the stream differs from the twin's, where the same frames were sent without blocking (frames of a blocked "
+                                              "client must wait and then run in the order sent)" % i))
+        elif failed_oracle(have, code, spec, same):
+            res["oracle"].append(dict(st, why="reply differs from the prescribed one"))
+    r0 = tw.impl(tw.a, [b"EXEC"])
+    c0 = m.frame(cid, [b"EXEC"])
+    oracle(r0 == "( e )", "after the pipeline the connection must be outside any transaction (EXEC without MULTI refused)", got=r0)
+    if r0 != c0[0]:
+        res["disagree"].append({"what": "exec-again", "impl": r0, "code": c0[0]})
+    tw.impl(tw.t, [b"EXEC"])
+    for pc in [[b"RPUSH", k, b"probe"] for k in named_keys([pop] + frames)[:6]]:
+        impl = tw.impl(tw.b, pc)
+        code, spec, same = m.frame(9001, pc)
+        if failed_oracle(impl, code, spec, same):
+            res["oracle"].append({"why": "probe push after the pipeline not answered as prescribed", "text": repr(pc), "impl": impl, "spec": spec})
+        tw.impl(tw.tobs, pc)
+    tw.turn(tw.b)
+    for db in (0,):
+        da, dt, dm, ds = dump_db(tw.b, db), dump_db(tw.tobs, db), m.dump(db), m.dumpspec(db)
+        oracle(da == dt, "dataset after the pipeline differs from the twin's", impl_dump=da, twin_dump=dt)
+        oracle(da == ds, "dataset after the pipeline differs from the prescribed one", impl_dump=da, prescribed=ds)
+        if da != dm:
+            res["disagree"].append({"what": "dump db %d" % db, "impl": da, "code": dm})
+    if rep:
+        where = "pop-only" if split == 0 else ("whole-pipeline" if split >= len(frames) else ("multi-and-part-of-queue" if split <= len(qnames) + 1 else "through-exec"))
+        rep.count("straddle.first-write.%s.unblocked-by-%s" % (where, case["unblock"]))
+        rep.nontrivial(("straddle", where, case["unblock"], name_of(pop), len(pop) - 2))
+    if res["oracle"]:
+        tw.restart()
+    return res
+
+
+def shrink_straddle(case, findings):
+    rep = Report(PID, "shrink", 0)
+    tw = Twin(rep)
+
+    def fails(c):
+        return bool(run_straddle_case(tw, c)["oracle"])
+    try:
+        if not fails(case):
+            return case
+        small = dict(case)
+        # drop frames one at a time (keeping the position of the cut between the two writes relative to what remains)
+        i = 0
+        while i < len(small["frames"]) and len(small["frames"]) > 1:
+            cand = dict(small, frames=small["frames"][:i] + small["frames"][i + 1:], split=small["split"] - (1 if i < small["split"] else 0))
+            if fails(cand):
+                small = cand
+            else:
+                i += 1
+        if len(small["setup"]) > 1:
+            small["setup"] = shrink_list(small["setup"], lambda su: fails(dict(small, setup=su)), max_steps=12)
+        small["text"] = straddle_text(small)
+        small["shrunk_from"] = {"frames": len(case["frames"])}
         return small
     except (InternalError, OSError):
         return case
@@ -1160,7 +1344,10 @@ def main(tier, seed):
                 "effect); every reply and dump compared with the Lean model. (i-c) chains of 2-4 transactions on ONE connection whose earlier ones end in every way (EXEC that runs, "
                 "EXEC aborted because another connection changed a WATCHed key before MULTI or after the queueing, DISCARD, run-time failures and refused names in the "
                 "queue, MULTI inside MULTI, EXEC/DISCARD without MULTI in between) followed by a fresh MULTI..EXEC that must return exactly its own slots and leave the "
-                "twin's dataset. (ii) interleaved schedules of 2-3 connections (transactions, plain commands, list traffic, "
+                "twin's dataset; after every ending (EXEC run, EXEC aborted, DISCARD, WATCH..UNWATCH) another connection changes the keys that had been WATCHed "
+                "and the next transaction must RUN. (i-d) a connection whose first write is a BLPOP/BRPOP that really blocks followed by the first part of MULTI..EXEC.. "
+                "and whose second write, sent while it is blocked, is the rest (every cut position), unblocked by another connection's push or by its time-out: the reply "
+                "stream and the dataset must equal the twin's, where the same frames are sent without blocking. (ii) interleaved schedules of 2-3 connections (transactions, plain commands, list traffic, "
                 "SELECT, disconnects) plus up to two third-party clients blocked in BLPOP/BRPOP on the keys the transactions push to: the model predicts every reply and "
                 "which blocked client is served what after which frame - never inside an EXEC, after it if an element is left. (iii) real-time transfer workload "
                 "(MULTI/EXEC, pipelined, Lua writers; MGET and MULTI-GET readers; constant sum). (iv) witnesses of the three deviations of the tree as found, against "
@@ -1242,6 +1429,22 @@ def main(tier, seed):
             if i < 1:
                 rep.sample({"chain_case": chain_text(case), "steps": [st["text"] + " -> " + st["impl"] for st in res["steps"][:30]]})
 
+        # ---------------- (i-d) transactions straddling a blocking pop that blocks and two writes
+        n_str = 100 if tier == "quick" else 2500
+        for i in range(n_str):
+            if not tw.alive():
+                break
+            case = gen_straddle(r.fork("straddle%d" % i), allow_timeout=(i % (33 if tier == "quick" else 100) == 0))
+            res = run_straddle_case(tw, case, rep)
+            rep.evaluations += len(res["steps"]) + 1
+            rep.traces_validated += 1
+            if res["oracle"]:
+                new_fail.append(("transaction straddling a blocking pop and two writes: %s" % res["oracle"][0]["why"], dict(case, text=straddle_text(case)), res))
+            if res["disagree"]:
+                disagreements.append({"case": case, "first": res["disagree"][0], "with_oracle_failure": bool(res["oracle"])})
+            if i < 1:
+                rep.sample({"straddle_case": straddle_text(case), "replies": [st["text"] + " -> " + st["impl"] for st in res["steps"][:20]]})
+
         ps = protocol_scenarios(tw, rep)
         if ps["oracle"]:
             new_fail.append(("protocol scenario: %s" % ps["oracle"][0]["why"], {"kind": "scenario"}, ps))
@@ -1314,13 +1517,15 @@ def main(tier, seed):
     rep.extra["model_disagreements"] = len(disagreements)
     rep.extra["oracle_failures_unexplained"] = len(new_fail)
     if new_fail:
-        what, rp, res = sorted(new_fail, key=lambda x: (x[1].get("kind") not in ("twin", "interleaved", "chain"), x[1].get("kind") not in ("twin", "chain"), len(json.dumps(x[1]))))[0]
+        what, rp, res = sorted(new_fail, key=lambda x: (x[1].get("kind") not in ("twin", "interleaved", "chain", "straddle"), x[1].get("kind") not in ("twin", "chain", "straddle"), len(json.dumps(x[1]))))[0]
         if rp.get("kind") == "twin":
             rp = shrink_twin(rp, findings)
         elif rp.get("kind") == "interleaved":
             rp = shrink_interleaved(rp, findings)
         elif rp.get("kind") == "chain":
             rp = shrink_chain(rp, findings)
+        elif rp.get("kind") == "straddle":
+            rp = shrink_straddle(rp, findings)
         detail = {k: (sorted(v) if isinstance(v, set) else v) for k, v in res.items()} if isinstance(res, dict) else {}
         rep.violation("C07: " + what, {"replay": rp, "family": FAMILY, "observed": _trim(detail),
                                        "more": [w0 for w0, _, _ in new_fail[1:6]], "lean_errors": errs[:5]})
@@ -1442,6 +1647,26 @@ def replay(path):
             print("VIOLATION property=C07 replay=%s" % path)
             return 1
         print("OK (the property's oracle holds on this replay)" if not orc else "KNOWN-FINDING: property=C07 %s" % findings["select-in-exec"]["id"])
+        return 0
+    if kind == "straddle":
+        tw = Twin(rep)
+        try:
+            res = run_straddle_case(tw, rp)
+        finally:
+            tw.close()
+        for st in res["steps"]:
+            print("%-14s %s" % (st["what"], st["text"]))
+            print("      impl: %s" % st["impl"])
+            if st["impl"] != st["twin"]:
+                print("      TWIN: %s" % st["twin"])
+            if st["impl"] != st["spec"]:
+                print("      SPEC: %s" % st["spec"])
+        for o in res["oracle"]:
+            print("ORACLE: %s" % o["why"])
+        if res["oracle"]:
+            print("VIOLATION property=C07 replay=%s" % path)
+            return 1
+        print("OK (the property's oracle holds on this replay)")
         return 0
     if kind == "chain":
         tw = Twin(rep)
